@@ -819,7 +819,7 @@ class InterpolatableFunction(ABC):
                     np.asarray(self._interpolationValues),
                 )
             )
-            np.savetxt(outputFileName, stackedArray, fmt="%.15g", delimiter=" ")
+            np.savetxt(outputFileName, stackedArray, fmt="%.17g", delimiter=" ")
 
             logging.debug(
                 "Stored interpolation table for function "
